@@ -1,14 +1,15 @@
 #!/bin/sh
-# harness/seedtest.sh <seed-id> <property> [more properties]: apply /verif/seeded/<seed-id>/patch.diff to /repo, run the
-# demonstration (must fail) and the quick checks of the given properties (should report VIOLATION), then undo the change.
+# harness/seedtest.sh <seed-id> <property> [more properties]: apply /verif/seeded/<seed-id>/patch.diff to a scratch
+# worktree of /repo (so that /repo itself stays untouched for other runs), run the demonstration (must fail there) and
+# the quick checks of the given properties against that tree (should report VIOLATION), then remove the worktree.
 id="$1"; shift
 d=/verif/seeded/$id
-cd /repo || exit 2
-git -C /repo diff --quiet || { echo "/repo has uncommitted changes"; exit 2; }
-PYTHONPATH=/repo /venv/bin/python $d/demo.py >/dev/null 2>&1; echo "demo on unchanged tree: exit $?"
-git -C /repo apply $d/patch.diff || exit 2
-PYTHONPATH=/repo /venv/bin/python $d/demo.py >/dev/null 2>&1; echo "demo with the change:  exit $?"
+wt=/tmp/seedwt_$$
+git -C /repo worktree add -q $wt HEAD || exit 2
+PYTHONPATH=$wt /venv/bin/python $d/demo.py >/dev/null 2>&1; echo "demo on unchanged tree: exit $?"
+git -C $wt apply $d/patch.diff || { git -C /repo worktree remove --force $wt; exit 2; }
+PYTHONPATH=$wt /venv/bin/python $d/demo.py >/dev/null 2>&1; echo "demo with the change:  exit $?"
 for p in "$@"; do
-  (cd /verif && ./check $p --tier quick 2>&1 | grep -E "VIOLATION|KNOWN|quick:" | cut -c1-220 | head -6)
+  (cd /verif && VERIF_REPO=$wt ./check $p --tier quick 2>&1 | grep -E "VIOLATION|KNOWN|quick:" | cut -c1-220 | tail -4)
 done
-git -C /repo checkout -- .
+git -C /repo worktree remove --force $wt
